@@ -2,13 +2,17 @@
 import random
 from .. import core, gen, ref, pilgen as PG
 
-MODULES = ['DsdVerif.Props.C12']
-GEN_FILES = ['Grammars']
+MODULES = ['DsdVerif.Props.C12', 'DsdVerif.Lemmas.PyObjKernel']
+GEN_FILES = ['Grammars', 'PyComplexS']
 THEOREM_NAMES = ['kernelTokens_total', 'resolve_kernel_inverse', 'resolve_kernel_structure', 'complementary_rotate', 'kernel_all_rotations',
                  'compName_involutive', 'kernel_text_roundtrip', 'kernel_text_all_rotations', 'resolveKernel_budget']
-THEOREMS = ['Dsd.C12.' + t for t in THEOREM_NAMES]
+THEOREMS = ['Dsd.C12.' + t for t in THEOREM_NAMES] + [
+    # ComplexS.kernel_string as written in the source (Gen/PyComplexS.lean, regenerated on every run) is the model's kernelString
+    'Dsd.PyObj.Kernel.exec_kernel_string', 'Dsd.PyObj.Kernel.view_kernel']
 ASSUMPTIONS = [
-    'resolve_kernel_loops and kernel_string are hand-modelled at token level (Model/Kernel.lean, Model/CplxObject.lean); the '
+    'resolve_kernel_loops is hand-modelled at token level (Model/Kernel.lean); kernel_string is transcribed statement by statement from the working tree '
+    '(Gen/PyComplexS.lean) and proved equal to the model\'s kernelString for every object whose sequence and structure are equally long '
+    '(PyObj.Kernel.exec_kernel_string); the '
     'character level goes through the model of pyparsing over the regenerated PIL grammar (correspondence with the real parser)',
 ]
 MANIFEST = {
